@@ -440,10 +440,10 @@ impl SingleSubLowerer<'_, '_> {
         // Those would've hit an ExprClass::Simple case in another method first...
         match self.classify_expr(whole_expr)? {
             ExprClass::Simple(SimpleExpr { .. }) => {
-                self.ctx.emitter.emit(bug!(
+                return Err(self.ctx.emitter.emit(bug!(
                     message("unhandled simple diff switch"),
                     note("I didn't think this was possible. You get a cookie!"),
-                )).ignore();
+                )));
             },
             ExprClass::NeedsElaboration(TemporaryExpr { .. }) => {},
         }
